@@ -173,7 +173,10 @@ def build(case):
             teams[ti].parent_team = teams[tm["parent"]]
     for i, t in enumerate(case["tasks"]):
         for tm in t.get("teams", []):
-            teams[tm].append_targeted_task(tasks[i])
+            if case["teams"][tm].get("oneside"):
+                teams[tm].targeted_task_list.append(tasks[i])      # what BaseTeam(targeted_task_list=[...]) gives
+            else:
+                teams[tm].append_targeted_task(tasks[i])
         for wp in t.get("wps", []):
             wps[wp].append_targeted_task(tasks[i])
     b.tasks, b.comps, b.workers, b.teams, b.facs, b.wps = tasks, comps, workers, teams, facs, wps
